@@ -24,6 +24,15 @@ Definition ref_sig (r : ref) : nat := match r with RSig s => s | RSlice s _ => s
 Definition upd {A} (e : nat -> A) (s : nat) (v : A) : nat -> A :=
   fun s' => if Nat.eqb s' s then v else e s'.
 
+(* Network(m1, m2, ..., print_timing=...): False (the default), True, or a number (only passes/members that take longer
+   than this many seconds are reported; 0, 0.0, 10.0, ... all select the timed branch because `x is not False`) *)
+Inductive timing : Type := TOff | TOn | TMin.
+(* `self.print_timing is not False` *)
+Definition timed (tm : timing) : bool := match tm with TOff => false | TOn => true | TMin => true end.
+(* Network.timefn(fn, name): start_t = time.time(); fn(); print(...) when the duration exceeds the threshold.
+   The printed text is not part of the model; the call of fn is. *)
+Definition timefn {A : Type} (tm : timing) (fn : A -> A) : A -> A := fun a => fn a.
+
 Section NetModel.
   Context {K : Type} `{NK : Num K}.
 
@@ -140,31 +149,54 @@ Section NetModel.
   Definition bwd' (dims : nat -> nat) (mods : list module) (c : cenv) : cenv :=
     fold_left (fun c m => bwd_mod' dims m c) (rev mods) c.
 
-  (* ---- nested networks: a Network is itself a Module whose response/sensitivity iterate its members *)
+  (* ---- nested networks: a Network is itself a Module whose response/sensitivity iterate its members.
+     A Network carries its construction option print_timing (type `timing` below).  Network.response and
+     Network.sensitivity have two branches, `if self.print_timing is not False:` iterate with every member call
+     wrapped in self.timefn(...), `else:` iterate with plain calls; both are modelled as written. *)
   Inductive node : Type :=
   | NMod (m : module)
-  | NNet (l : list node).
+  | NNet (tm : timing) (l : list node).
 
   Fixpoint flatten (n : node) : list module :=
     match n with
     | NMod m => [m]
-    | NNet l => (fix go (l : list node) : list module :=
-                   match l with [] => [] | x :: r => flatten x ++ go r end) l
+    | NNet _ l => (fix go (l : list node) : list module :=
+                     match l with [] => [] | x :: r => flatten x ++ go r end) l
     end.
 
   Fixpoint fwd_node (n : node) (t : tenv) : tenv :=
     match n with
     | NMod m => fwd_mod m t
-    | NNet l => (fix go (l : list node) (t : tenv) : tenv :=
-                   match l with [] => t | x :: r => go r (fwd_node x t) end) l t
+    | NNet tm l =>
+      if timed tm
+      then (* [self.timefn(m.response, ...) for m in self.mods] *)
+           (fix go (l : list node) (t : tenv) : tenv :=
+              match l with [] => t | x :: r => go r (timefn tm (fwd_node x) t) end) l t
+      else (* [m.response() for m in self.mods] *)
+           (fix go (l : list node) (t : tenv) : tenv :=
+              match l with [] => t | x :: r => go r (fwd_node x t) end) l t
     end.
 
   (* reversed(self.mods): the tail is processed before the head *)
   Fixpoint bwd_node (dims : nat -> nat) (n : node) (c : cenv) : cenv :=
     match n with
     | NMod m => bwd_mod dims m c
-    | NNet l => (fix go (l : list node) (c : cenv) : cenv :=
-                   match l with [] => c | x :: r => bwd_node dims x (go r c) end) l c
+    | NNet tm l =>
+      if timed tm
+      then (* [self.timefn(m.sensitivity, ...) for m in reversed(self.mods)] *)
+           (fix go (l : list node) (c : cenv) : cenv :=
+              match l with [] => c | x :: r => timefn tm (bwd_node dims x) (go r c) end) l c
+      else (* [m.sensitivity() for m in reversed(self.mods)] *)
+           (fix go (l : list node) (c : cenv) : cenv :=
+              match l with [] => c | x :: r => bwd_node dims x (go r c) end) l c
+    end.
+
+  (* the same network tree with the print_timing option of every (inner) Network replaced *)
+  Fixpoint retime (f : timing -> timing) (n : node) : node :=
+    match n with
+    | NMod m => NMod m
+    | NNet tm l => NNet (f tm) ((fix go (l : list node) : list node :=
+                                   match l with [] => [] | x :: r => retime f x :: go r end) l)
     end.
 
   (* ---- pairings *)
@@ -297,20 +329,20 @@ Section NetModel.
   (* a network described by data: block-matrix modules, possibly nested *)
   Inductive stree : Type :=
   | SMod (ins : list ref) (outs : list nat) (L : lin)
-  | SNet (l : list stree).
+  | SNet (tm : timing) (l : list stree).
 
   Fixpoint to_node (s : stree) : node :=
     match s with
     | SMod ins outs L => NMod (linmod ins outs L)
-    | SNet l => NNet ((fix go (l : list stree) : list node :=
-                         match l with [] => [] | x :: r => to_node x :: go r end) l)
+    | SNet tm l => NNet tm ((fix go (l : list stree) : list node :=
+                               match l with [] => [] | x :: r => to_node x :: go r end) l)
     end.
 
   Fixpoint specs_ok (dims : nat -> nat) (s : stree) : bool :=
     match s with
     | SMod ins outs L => linmod_ok dims ins outs L
-    | SNet l => (fix go (l : list stree) : bool :=
-                   match l with [] => true | x :: r => specs_ok dims x && go r end) l
+    | SNet _ l => (fix go (l : list stree) : bool :=
+                     match l with [] => true | x :: r => specs_ok dims x && go r end) l
     end.
 
   (* everything the theorem asks of a described network *)
@@ -359,12 +391,12 @@ Definition mkL (i o : list nat) (n : list bool) (b : list (nat * nat * list (lis
 (* the 5-module diamond of corpus/C02/diamond.json *)
 Definition diamond_dims : list nat := [3; 2; 2; 2; 2; 1; 2; 1].
 Definition diamond : stree Z :=
-  SNet [SNet [SMod [RSlice 0 [0; 2]] [2] (mkL [2] [2] [false] [(0, 0, [[1; 2]; [0; -1]]%Z)]);
+  SNet TOff [SNet TOn [SMod [RSlice 0 [0; 2]] [2] (mkL [2] [2] [false] [(0, 0, [[1; 2]; [0; -1]]%Z)]);
               SMod [RSig 0; RSig 1] [3] (mkL [3; 2] [2] [false; false]
                                              [(0, 0, [[1; 0; 2]; [-1; 1; 0]]%Z); (0, 1, [[2; 0]; [1; 1]]%Z)])];
         SMod [RSig 2; RSig 3] [4] (mkL [2; 2] [2] [false; false]
                                        [(0, 0, [[1; 1]; [0; 2]]%Z); (0, 1, [[-1; 0]; [2; 1]]%Z)]);
-        SNet [SMod [RSig 2; RSig 2] [5] (mkL [2; 2] [1] [false; false] [(0, 0, [[1; -1]]%Z); (0, 1, [[2; 1]]%Z)]);
+        SNet TMin [SMod [RSig 2; RSig 2] [5] (mkL [2; 2] [1] [false; false] [(0, 0, [[1; -1]]%Z); (0, 1, [[2; 1]]%Z)]);
               SMod [RSig 4] [6; 7] (mkL [2] [2; 1] [false] [(0, 0, [[1; 2]; [0; 1]]%Z); (1, 0, [[1; 1]]%Z)])]].
 Definition diamond_seeds : list (option (list Z)) :=
   [None; None; None; None; None; Some [2]; Some [1; -1]; None]%Z.
